@@ -143,8 +143,8 @@ var propSpecs = map[string]*PropSpec{
 	"C07": {
 		Patterns:    []string{"./..."},
 		Level:       "proof",
-		Explanation: "partial: the tokenizer's cursor API (Next, NextText, Peek, PeekText, Advance, CurrentLine, CurrentColumn, Set, Reset, Delete, Insert) is under safe-mode contracts with the representation invariant 'the cursor is never negative' (every function of the module that assigns Tokenizer.TokenP keeps it, table obligation), so every index into the token list is in bounds for every token list, cursor and argument; plus the ledger of no-panic sites the contract-free sweep proved in internal/language/tokenizer",
-		TrustedBase: []string{"the compiler and the bytecode interpreter are NOT covered (their dispatch functions are beyond what the sweep could lower in the memory available); the property as a whole (no source text crashes the host) is not decided", "nil dereferences are not claimed"},
+		Explanation: "partial: (1) the tokenizer's cursor API (Next, NextText, Peek, PeekText, Advance, CurrentLine, CurrentColumn, Set, Reset, Delete, Insert) is under safe-mode contracts with the representation invariant 'the cursor is never negative' (every function of the module that assigns Tokenizer.TokenP keeps it, table obligation), so every index into the token list is in bounds for every token list, cursor and argument; (2) the ledger of the index / slice / make / division / type-assertion / nil-map-store sites that a contract-free safe-mode sweep proved panic-free for every input in internal/language/tokenizer, compiler and bytecode is re-proved on every run, and in every function of those packages in which the sweep proved every site ('closed'), a site that is new and refuted is a violation",
+		TrustedBase: []string{"sites the sweep could not prove on their own (they need a caller's guarantee, or the solver gave up) are NOT claimed: ledger/C07.open.txt; six functions too large to lower in the memory available (the interpreter's dispatch table and five compiler functions) are not attempted; the property as a whole (no source text crashes the host) is not decided", "nil dereferences are not claimed", "each function is swept on its own with unconstrained parameters (a non-nil receiver only)"},
 		Sweep:       []string{modInternal + "language/tokenizer", modInternal + "language/compiler", modInternal + "language/bytecode"},
 		Extra:       c07Extra,
 	},
